@@ -1,5 +1,5 @@
 #!/usr/bin/env python3
-"""mkemu.py <neon|simd128> <dest-dir>
+"""mkemu.py <neon|simd128|other> <dest-dir>
 
 Copy /repo's current working tree to <dest-dir>/repo and rewrite its cfg predicates so that the
 aarch64-NEON (resp. wasm32-simd128) code is what compiles on this x86_64 host, with
@@ -28,7 +28,9 @@ def main():
             s = open(p).read()
             o = s
             s = s.replace('target_arch = "x86_64"', 'any()')
-            if arch == "neon":
+            if arch == "other":
+                pass        # no vector module at all: the `not(any(x86_64, wasm32+simd128, aarch64))` paths
+            elif arch == "neon":
                 s = s.replace('target_arch = "aarch64"', 'all()')
                 s = s.replace('target_feature = "neon"', 'all()')
                 s = re.sub(r'^\s*#\[target_feature\(enable = "neon"\)\]\n', '', s, flags=re.M)
@@ -47,12 +49,13 @@ def main():
             if s != o:
                 n_rewrites += 1
                 open(p, "w").write(s)
-    lib = os.path.join(repo, "src/lib.rs")
-    s = open(lib).read()
-    mod = "emu_aarch64" if arch == "neon" else "emu_wasm32"
-    s = s.replace("mod vector;\n", "mod vector;\n#[allow(missing_docs)]\npub(crate) mod %s;\n" % mod, 1)
-    open(lib, "w").write(s)
-    shutil.copy(os.path.join(HERE, mod + ".rs"), os.path.join(repo, "src", mod + ".rs"))
+    if arch != "other":
+        lib = os.path.join(repo, "src/lib.rs")
+        s = open(lib).read()
+        mod = "emu_aarch64" if arch == "neon" else "emu_wasm32"
+        s = s.replace("mod vector;\n", "mod vector;\n#[allow(missing_docs)]\npub(crate) mod %s;\n" % mod, 1)
+        open(lib, "w").write(s)
+        shutil.copy(os.path.join(HERE, mod + ".rs"), os.path.join(repo, "src", mod + ".rs"))
     # executor copy
     h = os.path.join(dest, "harness")
     shutil.copytree(os.path.join(ROOT, "harness"), h, ignore=shutil.ignore_patterns("target"))
